@@ -158,7 +158,7 @@ def repl_cases():
     for m in ("replace", "replaceAll"):
         for ri in range(len(RECV)):
             for pat in ['"a"', '"X"', '"bX"', '""', '"b"', '","', '"$"']:
-                for rp in REPL + ["function(){}", "function(m){ return m + m }",
+                for rp in REPL + ["function(m){ return m + m }",
                                   "function(m, i, t){ return typeof i + i + (t === s) }"]:
                     args = (pat, rp)
                     out.append(_case(RECV[ri], "s.%s(%s)" % (m, ", ".join(args)), m, args, ri))
@@ -209,7 +209,7 @@ def thorough_strata():
                      "2 x tuples with an object argument"))
     st.append(_space("c16_replacement", lambda: repl_cases(),
                      "replace / replaceAll with string patterns: $-substitution patterns and replacer functions",
-                     "2 x 14 x 7 patterns x 16 replacements"))
+                     "2 x 14 x 7 patterns x 15 replacements"))
     return st
 
 
